@@ -228,6 +228,72 @@ pub fn run(tier: &str) -> Result<Report, String> {
         rep.evaluations += n_long * n as u64;
         rep.set("long_batches", json!({"formulae_per_batch": n, "orders": 3, "entry_points": 5}));
     }
+    // operator pairs over the SAME operands in one batch / one formula: cache keys are built from printed text, so two
+    // operators must never share a key (every ordered pair of unary operators, of binary operators, of quantifiers)
+    {
+        use biodivine_hctl_model_checker::model_checking as mc;
+        let mut n_pairs = 0u64;
+        let (mut n_distinct, mut n_weak_distinct) = (0u64, 0u64);
+        for b in nets.iter().filter(|b| b.n >= 2 && b.spec.vars[0] == "a" && b.spec.vars[1] == "b" && (tier != "quick" || ["con2", "asy2", "unc2", "cyc3", "tog2"].contains(&b.name.as_str()))) {
+            let name = b.name.as_str();
+            let mut forms: Vec<Vec<String>> = vec![];
+            forms.push(["~", "EX", "AX", "EF", "AF", "EG", "AG"].iter().map(|u| format!("{u} (a & ~b)")).collect());
+            for (l, r) in [("a", "b"), ("(~a)", "b"), ("a", "(~b)"), ("(a | b)", "(~a)"), ("b", "a"), ("(~a)", "(a & b)"), ("(a | ~b)", "(~a & b)"), ("(~b)", "(a & ~b)")] {
+                forms.push(["&", "|", "^", "=>", "<=>", "EU", "AU", "EW", "AW"].iter().map(|o| format!("{l} {o} {r}")).collect());
+                // ... the same one level down (sub-formulae, not whole formulae, are what the cache holds)
+                forms.push(["&", "|", "^", "=>", "<=>", "EU", "AU", "EW", "AW"].iter().map(|o| format!("EX ({l} {o} {r})")).collect());
+            }
+            forms.push(["~", "EX", "AX", "EF", "AF", "EG", "AG"].iter().map(|u| format!("EF ({u} (a & ~b))")).collect());
+            forms.push(["&", "|", "^", "=>", "<=>", "EU", "AU", "EW", "AW"].iter().map(|o| format!("!{{x}}: EX (({{x}} | a) {o} b)")).collect());
+            forms.push(["!{x}:", "3{x}:", "V{x}:"].iter().map(|q| format!("{q} (AX ({{x}} | a))")).collect());
+            for group in &forms {
+                let single: Vec<Result<GraphColoredVertices, String>> = group.iter().map(|t| mc::model_check_formula_dirty(t, &b.graph)).collect();
+                for i in 0..group.len() {
+                    for j in 0..group.len() {
+                        if i == j {
+                            continue;
+                        }
+                        n_pairs += 1;
+                        if let (Ok(x), Ok(y)) = (&single[i], &single[j]) {
+                            if x != y {
+                                n_distinct += 1;
+                                if group[i].contains("EW") && group[j].contains("AW") {
+                                    n_weak_distinct += 1;
+                                }
+                            }
+                        }
+                        let both = format!("({}) & ~({})", group[i], group[j]);
+                        let batch = guarded(AssertUnwindSafe(|| mc::model_check_multiple_formulae_dirty(vec![group[i].as_str(), group[j].as_str(), both.as_str()], &b.graph)));
+                        let what = match (batch, &single[i], &single[j]) {
+                            (Ok(Ok(v)), Ok(si), Ok(sj)) if v.len() == 3 => {
+                                use biodivine_lib_param_bn::biodivine_std::traits::Set;
+                                if &v[0] != si {
+                                    Some(format!("position 0 (`{}`) differs from evaluating it alone", group[i]))
+                                } else if &v[1] != sj {
+                                    Some(format!("position 1 (`{}`) differs from evaluating it alone", group[j]))
+                                } else if v[2] != si.minus(sj) {
+                                    Some(format!("`{both}` differs from the difference of the two sets evaluated alone"))
+                                } else {
+                                    None
+                                }
+                            }
+                            (Ok(Ok(v)), _, _) => Some(format!("{} results / single evaluation failed", v.len())),
+                            (Ok(Err(e)), _, _) => Some(format!("Err: {e}")),
+                            (Err(p), _, _) => Some(format!("panic: {p}")),
+                        };
+                        if let Some(w) = what {
+                            rep.violations.push(Violation { case: json!({"kind": "none"}), what: format!("operator pair batch [`{}`, `{}`, both] on {name}: {w}", group[i], group[j]), size: 700 });
+                        }
+                    }
+                }
+            }
+        }
+        if n_weak_distinct == 0 {
+            return Err("operator-pair batches are vacuous: EW and AW never differ on the chosen operands".into());
+        }
+        rep.evaluations += n_pairs * 3;
+        rep.set("operator_pair_batches", json!({"batches": n_pairs, "pairs_with_different_results": n_distinct, "EW_AW_pairs_with_different_results": n_weak_distinct}));
+    }
     // sharing inside one formula on the template families and on all small extended formulae
     let mut n_single = 0u64;
     for b in nets.iter().filter(|b| ["con2", "asy2"].contains(&b.name.as_str()) || (tier != "quick" && ["imp1", "unc2", "cyc3"].contains(&b.name.as_str()))) {
@@ -265,6 +331,6 @@ pub fn run(tier: &str) -> Result<Report, String> {
         }
     }
     rep.set("single_formula_shared_vs_unshared_cases", json!(n_single));
-    rep.rule = "(also: three long batches of 48 / 96 node-bounded formulae (tied heights, three orders) through model_check_multiple_formulae_dirty / _extended_formulae_dirty / _trees_dirty, and of extended formulae (wild-cards, restricted domains mixed with plain ones) through model_check_multiple_extended_formulae(_dirty), position by position against single evaluation; the same exploration and every ordered list of up to 5 (thorough 6) formulae over a three-formula alphabet - repetition patterns such as [A, A, B, B]) stateright BFS over the real EvalContext: initial states = every multiset of size <= max_batch_len over the collision alphabet (marked as a batch exactly as the entry points do), transitions = real eval_node on any not-yet-evaluated position, states merged by (batch, set of evaluated positions, sha256 digest of the context). In every reached state the new result must equal (BDD equality) the result of the formula evaluated alone and with sharing disabled, and the explicit-state oracle; no panic. Every ordered list of length <= max_batch_len additionally goes through model_check_multiple_extended_formulae_dirty (twice, and with an observer), model_check_multiple_extended_formulae and, for plain lists, model_check_multiple_formulae_dirty. Plus alone-vs-unshared-vs-oracle for every template formula and small extended formula. distinct_nontrivial = number of distinct context digests reached".into();
+    rep.rule = "(also: every ordered pair of different unary operators / binary operators / quantifiers applied to the SAME operands as one batch [A, B, A & ~B] against single evaluation - cache keys are printed text; three long batches of 48 / 96 node-bounded formulae (tied heights, three orders) through model_check_multiple_formulae_dirty / _extended_formulae_dirty / _trees_dirty, and of extended formulae (wild-cards, restricted domains mixed with plain ones) through model_check_multiple_extended_formulae(_dirty), position by position against single evaluation; the same exploration and every ordered list of up to 5 (thorough 6) formulae over a three-formula alphabet - repetition patterns such as [A, A, B, B]) stateright BFS over the real EvalContext: initial states = every multiset of size <= max_batch_len over the collision alphabet (marked as a batch exactly as the entry points do), transitions = real eval_node on any not-yet-evaluated position, states merged by (batch, set of evaluated positions, sha256 digest of the context). In every reached state the new result must equal (BDD equality) the result of the formula evaluated alone and with sharing disabled, and the explicit-state oracle; no panic. Every ordered list of length <= max_batch_len additionally goes through model_check_multiple_extended_formulae_dirty (twice, and with an observer), model_check_multiple_extended_formulae and, for plain lists, model_check_multiple_formulae_dirty. Plus alone-vs-unshared-vs-oracle for every template formula and small extended formula. distinct_nontrivial = number of distinct context digests reached".into();
     Ok(rep)
 }
